@@ -45,7 +45,9 @@ func (server *Server) registerSugarExecutors() {
 			return nil, newInvalidArgumentError(cmd, key, ErrOverflow)
 		}
 		newVal := currVal + val
+		// A counter keeps its time to live.
 		opt := newDefaultSetOption()
+		opt.KEEPTTL = true
 		_, err = server.userCommandHandler.Set(conn, key, strconv.Itoa(newVal), opt)
 		if err != nil {
 			return nil, err
@@ -68,7 +70,9 @@ func (server *Server) registerSugarExecutors() {
 		if getVal, err := getRet.String(); err == nil {
 			newVal = getVal + appendVal
 		}
+		// APPEND does not touch the time to live of the key.
 		opt := newDefaultSetOption()
+		opt.KEEPTTL = true
 		_, err = server.userCommandHandler.Set(conn, key, newVal, opt)
 		if err != nil {
 			return nil, err
